@@ -36,7 +36,7 @@ def gating_each_edge(ctx, facts):
     (directly or through a helper called on that path) - a gating decision taken once per clk() call is stale"""
     from ..callgraph import closure, resolve_call
     sim = facts.cls('Simulator', SIM)
-    cyc = facts.lookup(sim, '_clk_cycle')
+    cyc = facts.lookup_inl(sim, '_clk_cycle')
     where = '%s:Simulator._clk_cycle' % SIM
     if cyc is None:
         return
@@ -72,7 +72,7 @@ def gating_each_edge(ctx, facts):
 
 def check_a(ctx, facts):
     sim = facts.cls('Simulator', SIM)
-    cyc = facts.lookup(sim, '_clk_cycle')
+    cyc = facts.lookup_inl(sim, '_clk_cycle')
     where = '%s:Simulator._clk_cycle' % SIM
     gating_each_edge(ctx, facts)
     lp = driver_loop(cyc) if cyc else None
